@@ -712,7 +712,7 @@ impl Buffer {
         let mut len = bytes.len();
         let sauce_data = match SauceData::extract(bytes) {
             Ok(Some(sauce)) => {
-                len -= sauce.sauce_header_len;
+                len = len.saturating_sub(sauce.sauce_header_len);
                 Some(sauce)
             }
             Ok(None) => None,
